@@ -12,6 +12,14 @@ use std::time::{Duration, Instant};
 /// instead of CancelOk (a server may close a channel at any moment, e.g. while a cancel is on its way).
 pub static CLOSE_CHANNEL_ON_CANCEL: AtomicBool = AtomicBool::new(false);
 
+/// When set, the broker greets on accept: Connection.Start goes out at once, without waiting for the
+/// client's protocol header (it is then already in the client's socket at its first poll).
+pub static EAGER_START: AtomicBool = AtomicBool::new(false);
+
+/// When non-zero: the client's next write after it has read Tune (TuneOk + Open) stalls its thread
+/// for that many ms (the I/O thread is descheduled in the middle of the handshake).
+pub static PARK_WRITE_AFTER_TUNE_MS: std::sync::atomic::AtomicU64 = std::sync::atomic::AtomicU64::new(0);
+
 fn gen_loop<F: Fn(&mut [u8]) -> Result<usize, usize>>(f: F) -> Vec<u8> {
     let mut buf = vec![0u8; 512];
     loop {
@@ -145,6 +153,10 @@ pub fn auto_broker(peer: Peer, cfg: AutoConfig, stop: Arc<AtomicBool>, seen: Arc
                 next_hb = Instant::now() + Duration::from_millis(300);
             }
         }
+        if !sent_start && EAGER_START.load(Ordering::SeqCst) && !cfg.silent.load(Ordering::SeqCst) {
+            peer.push(&start("PLAIN AMQPLAIN EXTERNAL", "en_US"));
+            sent_start = true;
+        }
         let data = peer.written();
         let (has_header, frames, _rest) = split_written(&data);
         if has_header && !sent_start && !cfg.silent.load(Ordering::SeqCst) {
@@ -165,6 +177,10 @@ pub fn auto_broker(peer: Peer, cfg: AutoConfig, stop: Arc<AtomicBool>, seen: Arc
             let reply: Option<Vec<u8>> = match (cls, mid) {
                 (10, 11) => {
                     std::thread::sleep(Duration::from_millis(cfg.step_delay_ms));
+                    let park = PARK_WRITE_AFTER_TUNE_MS.load(Ordering::SeqCst);
+                    if park > 0 {
+                        peer.park_next_write(park);
+                    }
                     Some(tune(cfg.ch_max, cfg.frame_max, cfg.heartbeat))
                 }
                 (10, 31) => None,
